@@ -194,6 +194,14 @@ func TestC16_OutgoingFramesWellFormed(t *testing.T) {
 					for i := range b {
 						b[i] = fill ^ byte(i*5)
 					}
+					if rapid.IntRange(0, 3).Draw(t, "setTwice") == 0 {
+						// the caller changes its mind: a payload of another length class was set first
+						first := rapid.SampledFrom([]int{0, 1, 125, 126, 127, 300, 65535, 65536}).Draw(t, "firstLen")
+						if rfc6455.IsControl(op) && first > 125 {
+							first = 125
+						}
+						f.SetPayload(make([]byte, first))
+					}
 					f.SetPayload(b)
 				case "empty":
 					f.SetPayload(nil)
